@@ -1,4 +1,5 @@
 import Driver.Util
 import Driver.SemDrv
 import Driver.StopDrv
+import Driver.StopRefDrv
 import Driver.Main
